@@ -100,10 +100,24 @@ def clearDown (hi lo : Int) : M Unit := do
   for k in [0:n] do
     stackSet (hi - k) .nil
 
+/-- the frame search of `throw`: `for index >= 0 { f := &frames[index]; if f.hasHandler() {break};
+    f.freeVars = nil; f.fn = nil; index-- }`, with `n = index + 1` -/
+def searchFrames : Nat → M (Option Nat)
+  | 0 => pure none
+  | n+1 => do
+    if n ≥ frameSize then
+      panic s!"runtime error: index out of range [{n}] with length {frameSize}"
+    let s ← getS
+    let f := s.frames[n]!
+    if hasHandler f then pure (some n)
+    else
+      modS fun s => { s with frames := s.frames.modify n fun f => { f with free := none, fn := none } }
+      searchFrames n
+
 /-- vm.go `throw` + `handleThrownError` (mutually recursive in Go; fuel bounds the
     number of handlers/frames visited).  Returns `some err` when no handler takes it. -/
 def throwF : Nat → Addr → M (Option Addr)
-  | 0, _ => panic "model: throw fuel exhausted"
+  | 0, _ => unsupported "model: throw fuel exhausted"
   | fuel+1, err => do
     let cf ← curFrame
     if hasHandler cf then
@@ -111,17 +125,11 @@ def throwF : Nat → Addr → M (Option Addr)
     else
       -- find previous frames having error handler
       let s ← getS
-      let mut index : Int := s.frameIndex - 2
-      let mut found := false
-      while index ≥ 0 && !found do
-        let s ← getS
-        let f := s.frames[index.toNat]!
-        if hasHandler f then
-          found := true
-        else
-          modS fun s => { s with frames := s.frames.modify index.toNat fun f => { f with free := none, fn := none } }
-          index := index - 1
-      if !found || index < 0 then
+      let found? ← searchFrames (s.frameIndex - 1).toNat
+      let index : Int ← (match found? with
+        | some i => pure (i : Int)
+        | none => pure (-1))
+      if found?.isNone then
         return some err
       -- make the handling frame current
       modS fun s => { s with frameIndex := index + 1, curFrame := index.toNat }
@@ -193,7 +201,7 @@ def wantGE (x y : Int) : String := s!"want>={x} got={y}"
 def fnCell (a : Addr) : M (Code × Option (List Addr)) := do
   match (← heapGet a) with
   | .fn c free => pure ((← getS).codes[c]!, free)
-  | _ => panic "model: not a function cell"
+  | _ => unsupported "model: not a function cell"
 
 /-- `stack[lo:hi]` as a list (Go slice expression on the fixed array: bounds panic) -/
 def stackSlice (lo hi : Int) : M (List V) := do
@@ -383,7 +391,7 @@ def callObject (callee : V) (numArgs flags : Int) : M (Except OpErr Unit) := do
       bumpIp 2
       return .ok ()
   | .host _ => unsupported "call of a host object"
-  | .cfun _ => panic "model: compiled function in callObject"
+  | .cfun _ => unsupported "model: compiled function in callObject"
   | v => return .error (.named "NotCallableError" (typeName v))
 
 def callAny (callee : V) (numArgs flags : Int) : M (Except OpErr Unit) := do
@@ -403,7 +411,7 @@ def noteTrace (op : Nat) : M Unit := do
     set { s with steps := s.steps + 1 }
 
 def findFinally : Nat → Int → M Int
-  | 0, _ => panic "model: findFinally fuel"
+  | 0, _ => unsupported "model: findFinally fuel"
   | fuel+1, upto => do
     let f ← curFrame
     match f.handlers with
@@ -420,536 +428,624 @@ def findFinally : Nat → Int → M Int
           else pure h.finally_
         | [] => pure 0
 
+def execConstant : M Ctl := do
+  let v ← constAt (← opnd2 1)
+  pushV v; bumpIp 2; return .next
+
+def execGetLocal : M Ctl := do
+  let idx ← opnd1 1
+  let f ← curFrame
+  let value ← stackGet (f.bp + idx)
+  let value ← (match value with
+    | .box a => do match (← heapGet a) with | .box v => pure v | _ => unsupported "model: bad box"
+    | v => pure v)
+  pushV value; bumpIp 1; return .next
+
+def execSetLocal : M Ctl := do
+  let idx ← opnd1 1
+  let sp ← getSp
+  let value ← stackGet (sp - 1)
+  let f ← curFrame
+  let index := f.bp + idx
+  match (← stackGet index) with
+  | .box a => heapSet a (.box value)
+  | _ => stackSet index value
+  setSp (sp - 1); stackSet (sp - 1) .nil; bumpIp 1; return .next
+
+def execBinaryOp (F : FloatOps) : M Ctl := do
+  let tok := tokOfNat (← opnd1 1)
+  let sp ← getSp
+  let left ← stackGet (sp - 2)
+  let right ← stackGet (sp - 1)
+  match (← vBinaryOp F tok left right) with
+  | .ok v =>
+    stackSet (sp - 2) v; setSp (sp - 1); stackSet (sp - 1) .nil; bumpIp 1; return .next
+  | .error e => failWith e
+
+def execAndJump : M Ctl := do
+  let sp ← getSp
+  if (← isFalsy (← stackGet (sp - 1))) then
+    setIp ((← jumpTarget) - 1); return .next
+  stackSet (sp - 1) .nil; setSp (sp - 1); bumpIp 4; return .next
+
+def execOrJump : M Ctl := do
+  let sp ← getSp
+  if (← isFalsy (← stackGet (sp - 1))) then
+    stackSet (sp - 1) .nil; setSp (sp - 1); bumpIp 4; return .next
+  setIp ((← jumpTarget) - 1); return .next
+
+def execEqual (F : FloatOps) (op : Nat) : M Ctl := do
+  let sp ← getSp
+  let left ← stackGet (sp - 2)
+  let right ← stackGet (sp - 1)
+  let eq ← vEqual F left right
+  stackSet (sp - 2) (.bool (if op == OpEqual then eq else !eq))
+  setSp (sp - 1); stackSet (sp - 1) .nil; return .next
+
+def execTrue : M Ctl := do
+  pushV (.bool true); return .next
+
+def execFalse : M Ctl := do
+  pushV (.bool false); return .next
+
+def execCall : M Ctl := do
+  let numArgs ← opnd1 1
+  let flags ← opnd1 2
+  let callee ← stackGet ((← getSp) - numArgs - 1)
+  match (← callAny callee numArgs flags) with
+  | .ok () => return .next
+  | .error e => failWith e
+
+def execCallName : M Ctl := do
+  let numArgs : Int := (← opnd1 1)
+  let flags : Int := (← opnd1 2)
+  let sp ← getSp
+  let obj ← stackGet (sp - numArgs - 2)
+  let name ← stackGet (sp - 1)
+  setSp (sp - 1); stackSet (sp - 1) .nil
+  -- none of the modelled objects is a NameCallerObject
+  match obj with
+  | .host _ => unsupported "CallName on a host object"
+  | _ => pure ()
+  match (← vIndexGet obj name) with
+  | .error e => failWith e
+  | .ok v =>
+    stackSet ((← getSp) - numArgs - 1) v
+    match (← callAny v numArgs flags) with
+    | .ok () => return .next
+    | .error e => failWith e
+
+def execReturn : M Ctl := do
+  let numRet ← opnd1 1
+  let f ← curFrame
+  let mut bp := f.bp
+  if bp == 0 then
+    match f.fn with
+    | none => panic "runtime error: invalid memory address or nil pointer dereference"
+    | some fa => bp := ((← fnCell fa).1.numLocals : Int) + 1
+  let sp ← getSp
+  if numRet == 1 && !f.discard then
+    stackSet (bp - 1) (← stackGet (sp - 1))
+  else
+    stackSet (bp - 1) .undefined
+  -- for i := vm.sp - 1; i >= bp; i-- { vm.stack[i] = nil }
+  clearDown (sp - 1) bp
+  setSp bp
+  let s ← getS
+  if s.frameIndex == 1 then return .ret
+  clearCurrentFrame
+  let pi := s.frameIndex - 2
+  if pi < 0 || pi ≥ (frameSize : Int) then
+    panic s!"runtime error: index out of range [{pi}] with length {frameSize}"
+  modS fun s => { s with frameIndex := s.frameIndex - 1, curFrame := pi.toNat }
+  let parent ← curFrame
+  setIp parent.ip
+  -- vm.curInsts = vm.curFrame.fn.Instructions
+  match parent.fn with
+  | none => panic "runtime error: invalid memory address or nil pointer dereference"
+  | some _ => return .next
+
+def execGetBuiltin : M Ctl := do
+  pushV (.builtin (← opnd1 1)); bumpIp 1; return .next
+
+def execClosure : M Ctl := do
+  let cidx ← opnd2 1
+  let fa ← (match (← constAt cidx) with
+    | .cfun a => pure a
+    | _ => panic "interface conversion: ugo.Object is not *ugo.CompiledFunction")
+  let numFree : Int := (← opnd1 3)
+  let sp ← getSp
+  let mut free : List Addr := []
+  for k in [0:numFree.toNat] do
+    let slot := sp - numFree + k
+    match (← stackGet slot) with
+    | .box a => free := free ++ [a]
+    | v => do let a ← alloc (.box v); free := free ++ [a]
+    stackSet slot .nil
+  setSp (sp - numFree)
+  let code ← (match (← heapGet fa) with | .fn c _ => pure c | _ => unsupported "model: bad fn")
+  let na ← alloc (.fn code (some free))
+  pushV (.cfun na); bumpIp 3; return .next
+
+def execJump : M Ctl := do
+  setIp ((← jumpTarget) - 1); return .next
+
+def execJumpFalsy : M Ctl := do
+  let sp ← getSp
+  setSp (sp - 1)
+  let obj ← stackGet (sp - 1)
+  stackSet (sp - 1) .nil
+  if (← isFalsy obj) then
+    setIp ((← jumpTarget) - 1); return .next
+  bumpIp 4; return .next
+
+def execGetGlobal : M Ctl := do
+  let index ← constAt (← opnd2 1)
+  match (← vIndexGet (← getS).globals index) with
+  | .error e => failWith e
+  | .ok v =>
+    pushV v; bumpIp 2
+    -- (Go: ip += 2 then sp++; pushV wrote at the old sp)
+    return .next
+
+def execSetGlobal : M Ctl := do
+  let index ← constAt (← opnd2 1)
+  let sp ← getSp
+  let value ← stackGet (sp - 1)
+  let value ← (match value with
+    | .box a => do match (← heapGet a) with | .box v => pure v | _ => unsupported "model: bad box"
+    | v => pure v)
+  match (← vIndexSet (← getS).globals index value) with
+  | .error e => failWith e
+  | .ok () =>
+    bumpIp 2; setSp (sp - 1); stackSet (sp - 1) .nil; return .next
+
+def execArray : M Ctl := do
+  let n : Int := (← opnd2 1)
+  let sp ← getSp
+  let xs ← stackSlice (sp - n) sp
+  let arr ← newArray xs
+  setSp (sp - n)
+  stackSet (sp - n) arr
+  -- for i := vm.sp + 1; i < vm.sp+numItems+1; i++ { vm.stack[i] = nil }
+  for k in [0:n.toNat] do
+    stackSet (sp - n + 1 + k) .nil
+  setSp (sp - n + 1); bumpIp 2; return .next
+
+def execMap : M Ctl := do
+  let n : Int := (← opnd2 1)
+  let sp ← getSp
+  let mut kvs : List (Bytes × V) := []
+  -- for i := vm.sp - numItems; i < vm.sp; i += 2
+  for k in [0:((n + 1) / 2).toNat] do
+    let i := sp - n + 2 * (k : Int)
+    let key ← stackGet i
+    let value ← stackGet (i + 1)
+    kvs := insertKV (← vString key) value kvs
+    stackSet i .nil
+    stackSet (i + 1) .nil
+  let a ← alloc (.map kvs)
+  setSp (sp - n)
+  stackSet (sp - n) (.map a)
+  setSp (sp - n + 1); bumpIp 2; return .next
+
+def execGetIndex : M Ctl := do
+  let numSel0 : Int := (← opnd1 1)
+  let sp ← getSp
+  let tp := sp - 1 - numSel0
+  let mut target ← stackGet tp
+  let mut value := V.undefined
+  -- for ; numSel > 0; numSel--
+  for k in [0:numSel0.toNat] do
+    let numSel := numSel0 - (k : Int)
+    let ptr := sp - numSel
+    let index ← stackGet ptr
+    stackSet ptr .nil
+    match (← vIndexGet target index) with
+    | .error e =>
+      let e' ← (match e with
+        | .named "NotIndexableError" "" => pure (OpErr.named "NotIndexableError" (typeName target))
+        | .named "IndexOutOfBoundsError" "" => do pure (OpErr.named "IndexOutOfBoundsError" (String.fromUTF8! (ByteArray.mk (← vString index).toArray)))
+        | e => pure e)
+      return (← failWith e')
+    | .ok v => target := v; value := v
+  stackSet tp value
+  setSp (tp + 1); bumpIp 1; return .next
+
+def execSetIndex : M Ctl := do
+  let sp ← getSp
+  let value ← stackGet (sp - 3)
+  let target ← stackGet (sp - 2)
+  let index ← stackGet (sp - 1)
+  match (← vIndexSet target index value) with
+  | .error e =>
+    let e' ← (match e with
+      | .named "NotIndexAssignableError" "" => pure (OpErr.named "NotIndexAssignableError" (typeName target))
+      | .named "IndexOutOfBoundsError" "" => do pure (OpErr.named "IndexOutOfBoundsError" (String.fromUTF8! (ByteArray.mk (← vString index).toArray)))
+      | e => pure e)
+    failWith e'
+  | .ok () =>
+    stackSet (sp - 3) .nil; stackSet (sp - 2) .nil; stackSet (sp - 1) .nil
+    setSp (sp - 3); return .next
+
+def execSliceIndex : M Ctl := do
+  let sp ← getSp
+  let obj ← stackGet (sp - 3)
+  let left ← stackGet (sp - 2)
+  let right ← stackGet (sp - 1)
+  stackSet (sp - 3) .nil; stackSet (sp - 2) .nil; stackSet (sp - 1) .nil
+  setSp (sp - 3)
+  let objlen? : Option Int := match obj with
+    | .arr _ _ l => some l
+    | .str s => some s.length
+    | .bytes s => some s.length
+    | _ => none
+  match obj with
+  | .nil => panic "runtime error: invalid memory address or nil pointer dereference"
+  | _ => pure ()
+  match objlen? with
+  | none => failWith (.named "TypeError" s!"{typeName obj} cannot be sliced")
+  | some objlen =>
+    let conv (v : V) (dflt : Int) : Option Int := match v with
+      | .undefined => some dflt
+      | .int x => some x.toInt
+      | .uint x => some (BitVec.toInt x)
+      | .char x => some x.toInt
+      | _ => none
+    match conv left 0 with
+    | none => failWith (.named "TypeError" s!"invalid first index type {typeName left}")
+    | some low =>
+    match conv right objlen with
+    | none => failWith (.named "TypeError" s!"invalid second index type {typeName right}")
+    | some high =>
+      if low > high then failWith (.named "InvalidIndexError" s!"[{low}:{high}]")
+      else
+        match obj with
+        | .bytes _ => unsupported "slice of bytes (capacity-dependent)"
+        | _ =>
+        if low < 0 || high < 0 || high > objlen then
+          failWith (.named "IndexOutOfBoundsError" s!"[{low}:{high}]")
+        else
+          let r : V := match obj with
+            | .arr a off _ => .arr a (off + low.toNat) (high - low).toNat
+            | .str s => .str ((s.drop low.toNat).take (high - low).toNat)
+            | v => v
+          let sp ← getSp
+          stackSet sp r; setSp (sp + 1); return .next
+
+def execGetFree : M Ctl := do
+  let idx ← opnd1 1
+  let f ← curFrame
+  match f.free with
+  | none => panic s!"runtime error: index out of range [{idx}] with length 0"
+  | some fr =>
+    match fr[idx]? with
+    | none => panic s!"runtime error: index out of range [{idx}] with length {fr.length}"
+    | some a =>
+      match (← heapGet a) with
+      | .box v => pushV v; bumpIp 1; return .next
+      | _ => unsupported "model: bad box"
+
+def execSetFree : M Ctl := do
+  let idx ← opnd1 1
+  let f ← curFrame
+  let sp ← getSp
+  match f.free with
+  | none => panic s!"runtime error: index out of range [{idx}] with length 0"
+  | some fr =>
+    match fr[idx]? with
+    | none => panic s!"runtime error: index out of range [{idx}] with length {fr.length}"
+    | some a =>
+      heapSet a (.box (← stackGet (sp - 1)))
+      setSp (sp - 1); stackSet (sp - 1) .nil; bumpIp 1; return .next
+
+def execGetLocalPtr : M Ctl := do
+  let idx ← opnd1 1
+  let f ← curFrame
+  let value ← stackGet (f.bp + idx)
+  let fv ← (match value with
+    | .box a => pure (V.box a)
+    | v => do
+      let a ← alloc (.box v)
+      stackSet (f.bp + idx) (.box a)
+      pure (V.box a))
+  pushV fv; bumpIp 1; return .next
+
+def execGetFreePtr : M Ctl := do
+  let idx ← opnd1 1
+  let f ← curFrame
+  match f.free with
+  | none => panic s!"runtime error: index out of range [{idx}] with length 0"
+  | some fr =>
+    match fr[idx]? with
+    | none => panic s!"runtime error: index out of range [{idx}] with length {fr.length}"
+    | some a => pushV (.box a); bumpIp 1; return .next
+
+def execDefineLocal : M Ctl := do
+  let idx ← opnd1 1
+  let f ← curFrame
+  let sp ← getSp
+  stackSet (f.bp + idx) (← stackGet (sp - 1))
+  setSp (sp - 1); stackSet (sp - 1) .nil; bumpIp 1; return .next
+
+def execNull : M Ctl := do
+  pushV .undefined; return .next
+
+def execPop : M Ctl := do
+  let sp ← getSp
+  setSp (sp - 1); stackSet (sp - 1) .nil; return .next
+
+def execIterInit : M Ctl := do
+  let sp ← getSp
+  let dst ← stackGet (sp - 1)
+  let k? : Option IterK ← (match dst with
+    | .arr a o l => pure (some (IterK.arr a o l))
+    | .str s => pure (some (IterK.str s 0 0#32))
+    | .bytes s => pure (some (IterK.bytes s))
+    | .map a => do
+      let kvs ← mapEntries a
+      -- Go collects the keys in map iteration order: only maps with ≤ 1 key are deterministic
+      if kvs.length > 1 then unsupported "for-in over a map with several keys (iteration order)"
+      else pure (some (IterK.map a (kvs.map Prod.fst)))
+    | .nil => panic "runtime error: invalid memory address or nil pointer dereference"
+    | .host _ | .box _ => unsupported "iterate host"
+    | _ => pure none)
+  match k? with
+  | some k =>
+    let a ← alloc (.iter k 0)
+    stackSet (sp - 1) (.iter a); return .next
+  | none => failWith (.named "NotIterableError" (typeName dst))
+
+def execIterNext (op : Nat) : M Ctl := do
+  let sp ← getSp
+  let it ← stackGet (sp - 1)
+  match it with
+  | .iter a =>
+    match (← heapGet a) with
+    | .iter k i =>
+      if op == OpIterNext then
+        match k with
+        | .arr _ _ l =>
+          heapSet a (.iter k (i + 1)); stackSet (sp - 1) (.bool (decide (i < (l : Int)))); return .next
+        | .bytes s =>
+          heapSet a (.iter k (i + 1)); stackSet (sp - 1) (.bool (decide (i < (s.length : Int)))); return .next
+        | .map _ keys =>
+          heapSet a (.iter k (i + 1)); stackSet (sp - 1) (.bool (decide (i < (keys.length : Int)))); return .next
+        | .str _ _ _ => unsupported "string iteration (utf8 decoding)"
+      else if op == OpIterKey then
+        match k with
+        | .arr .. | .bytes _ => stackSet (sp - 1) (.int (BitVec.ofInt 64 (i - 1))); return .next
+        | .map _ keys =>
+          match (if i - 1 < 0 then none else keys[(i - 1).toNat]?) with
+          | some key => stackSet (sp - 1) (.str key); return .next
+          | none => panic s!"runtime error: index out of range [{i - 1}] with length {keys.length}"
+        | .str .. => unsupported "string iteration"
+      else
+        match k with
+        | .arr aa o l =>
+          let j := i - 1
+          if j > -1 && j < l then
+            let xs ← arrElems aa o l
+            stackSet (sp - 1) (xs[j.toNat]!); return .next
+          else stackSet (sp - 1) .undefined; return .next
+        | .bytes s =>
+          let j := i - 1
+          if j > -1 && j < s.length then
+            stackSet (sp - 1) (.int (BitVec.ofNat 64 (s[j.toNat]!).toNat)); return .next
+          else stackSet (sp - 1) .undefined; return .next
+        | .map ma keys =>
+          match (if i - 1 < 0 then none else keys[(i - 1).toNat]?) with
+          | some key =>
+            match lookupKV key (← mapEntries ma) with
+            | some v => stackSet (sp - 1) v; return .next
+            | none => stackSet (sp - 1) .undefined; return .next
+          | none => panic s!"runtime error: index out of range [{i - 1}] with length {keys.length}"
+        | .str .. => unsupported "string iteration"
+    | _ => unsupported "model: bad iterator cell"
+  | .nil => panic "interface conversion: interface is nil, not ugo.Iterator"
+  | _ => panic "interface conversion: ugo.Object is not ugo.Iterator"
+
+def execLoadModule : M Ctl := do
+  let cidx ← opnd2 1
+  let midx ← opnd2 3
+  let s ← getS
+  match s.modules[midx]? with
+  | none => panic s!"runtime error: index out of range [{midx}] with length {s.modules.size}"
+  | some .nil =>
+    pushV (← constAt cidx); pushV (.bool true); bumpIp 4; return .next
+  | some v =>
+    pushV v; pushV (.bool false); bumpIp 4; return .next
+
+def execStoreModule : M Ctl := do
+  let midx ← opnd2 1
+  let sp ← getSp
+  let value ← stackGet (sp - 1)
+  -- Copier: Array, Map, Bytes, Function, Error, … ; module values in the model are maps/arrays/scalars
+  let value ← (match value with
+    | .map _ | .arr .. => unsupported "STOREMODULE deep copy of a container"
+    | .nil => panic "runtime error: invalid memory address or nil pointer dereference"
+    | v => pure v)
+  let s ← getS
+  if midx ≥ s.modules.size then
+    panic s!"runtime error: index out of range [{midx}] with length {s.modules.size}"
+  modS fun s => { s with modules := s.modules.set! midx value }
+  bumpIp 2; return .next
+
+def execSetupTry : M Ctl := do
+  let catch_ ← opnd4 1
+  let finally_ ← opnd4 5
+  let sp ← getSp
+  let h : Handler := { sp := sp, catch_ := catch_, finally_ := finally_, returnTo := 0, err := none }
+  setCurFrame fun f => { f with handlers := some (h :: (f.handlers.getD [])) }
+  bumpIp 8; return .next
+
+def execSetupCatch : M Ctl := do
+  let f ← curFrame
+  let mut value := V.undefined
+  if hasHandler f then
+    setCurFrame fun f => setLast f fun h => { h with catch_ := 0 }
+    match lastHandler f with
+    | some h =>
+      match h.err with
+      | some e =>
+        value := .rterr e
+        setCurFrame fun f => setLast f fun h => { h with err := none }
+      | none => pure ()
+    | none => pure ()
+  pushV value; return .next
+
+def execSetupFinally : M Ctl := do
+  let f ← curFrame
+  if hasHandler f then
+    setCurFrame fun f => setLast f fun h => { h with catch_ := 0, finally_ := 0 }
+  return .next
+
+def execThrow : M Ctl := do
+  let o ← opnd1 1
+  bumpIp 1
+  if o == 0 then
+    let f ← curFrame
+    match lastHandler f with
+    | some h =>
+      match h.err with
+      | some e =>
+        -- errHandlers.hasError(): re-throw after finally
+        setCurFrame popHandler
+        match (← throwF (← throwFuel) e) with
+        | none => return .next
+        | some a => modS (fun s => { s with err := some (.rt a) }); return .ret
+      | none =>
+        if h.returnTo > 0 then
+          setCurFrame popHandler
+          let sp ← getSp
+          if sp ≥ h.sp then clearDown sp h.sp
+          setSp h.sp
+          setIp (h.returnTo - 1)
+          return .next
+        else
+          -- try statement completed normally, its handler is not needed anymore
+          setCurFrame popHandler
+          return .next
+    | none => return .next
+  else if o == 1 then
+    let sp ← getSp
+    let obj ← stackGet (sp - 1)
+    stackSet (sp - 1) .nil
+    setSp (sp - 1)
+    let ra ← (match obj with
+      | .rterr a => pure a
+      | .err a => alloc (.rterr (some a))
+      | .nil => panic "runtime error: invalid memory address or nil pointer dereference"
+      | v => do
+        let msg ← vString v
+        let ea ← alloc (.err [] msg none)
+        alloc (.rterr (some ea)))
+    match (← throwF (← throwFuel) ra) with
+    | none => return .next
+    | some a => modS (fun s => { s with err := some (.rt a) }); return .ret
+  else
+    modS (fun s => { s with err := some (.goerr s!"wrong operand for OpThrow:{o}") }); return .ret
+
+def execFinalizer : M Ctl := do
+  let upto ← opnd1 1
+  let nh := (match (← curFrame).handlers with | some hs => hs.length | none => 0)
+  let pos ← findFinally (nh + 2) upto
+  if pos ≤ 0 then
+    bumpIp 1; return .next
+  let ip ← getIp
+  let sp ← getSp
+  setCurFrame fun f => setLast f fun h => { h with returnTo := ip, sp := sp, err := none }
+  setIp (pos - 1); return .next
+
+def execUnary (F : FloatOps) : M Ctl := do
+  let tok := tokOfNat (← opnd1 1)
+  let sp ← getSp
+  let right ← stackGet (sp - 1)
+  match right with
+  | .nil => panic "runtime error: invalid memory address or nil pointer dereference"
+  | _ => pure ()
+  if tok == .Not then
+    stackSet (sp - 1) (.bool (← isFalsy right)); bumpIp 1; return .next
+  let bad : M Ctl := failWith (.named "TypeError" s!"invalid type for unary '{tok.str}': '{typeName right}'")
+  let r? : Option (Option V) := match tok, right with
+    | .Sub, .int x => some (some (.int (-x)))
+    | .Sub, .float x => some (some (.float (F.neg x)))
+    | .Sub, .char x => some (some (.int (BitVec.signExtend 64 (-x))))
+    | .Sub, .uint x => some (some (.uint (-x)))
+    | .Sub, .bool b => some (some (.int (if b then (-1#64) else 0#64)))
+    | .Sub, _ => some none
+    | .Xor, .int x => some (some (.int (~~~x)))
+    | .Xor, .uint x => some (some (.uint (~~~x)))
+    | .Xor, .char x => some (some (.int (~~~(BitVec.signExtend 64 x))))
+    | .Xor, .bool b => some (some (.int (if b then ~~~(1#64) else ~~~(0#64))))
+    | .Xor, _ => some none
+    | .Add, .int x => some (some (.int x))
+    | .Add, .uint x => some (some (.uint x))
+    | .Add, .float x => some (some (.float x))
+    | .Add, .char x => some (some (.char x))
+    | .Add, .bool b => some (some (.int (if b then 1#64 else 0#64)))
+    | .Add, _ => some none
+    | _, _ => none
+  match r? with
+  | none => failWith (.named "InvalidOperatorError" s!"invalid for '{tok.str}': '{typeName right}'")
+  | some none => bad
+  | some (some v) => stackSet (sp - 1) v; bumpIp 1; return .next
+
+def execNoOp : M Ctl := do
+  return .next
+
+def execUnknown (op : Nat) : M Ctl := do
+  modS (fun s => { s with err := some (.goerr s!"unknown opcode {op}") }); return .ret
+
+/-- instruction dispatch of the `switch vm.curInsts[vm.ip]` in `loop` -/
+def dispatch (F : FloatOps) (op : Nat) : M Ctl :=
+  if op == OpConstant then execConstant
+  else if op == OpGetLocal then execGetLocal
+  else if op == OpSetLocal then execSetLocal
+  else if op == OpBinaryOp then execBinaryOp F
+  else if op == OpAndJump then execAndJump
+  else if op == OpOrJump then execOrJump
+  else if op == OpEqual || op == OpNotEqual then execEqual F op
+  else if op == OpTrue then execTrue
+  else if op == OpFalse then execFalse
+  else if op == OpCall then execCall
+  else if op == OpCallName then execCallName
+  else if op == OpReturn then execReturn
+  else if op == OpGetBuiltin then execGetBuiltin
+  else if op == OpClosure then execClosure
+  else if op == OpJump then execJump
+  else if op == OpJumpFalsy then execJumpFalsy
+  else if op == OpGetGlobal then execGetGlobal
+  else if op == OpSetGlobal then execSetGlobal
+  else if op == OpArray then execArray
+  else if op == OpMap then execMap
+  else if op == OpGetIndex then execGetIndex
+  else if op == OpSetIndex then execSetIndex
+  else if op == OpSliceIndex then execSliceIndex
+  else if op == OpGetFree then execGetFree
+  else if op == OpSetFree then execSetFree
+  else if op == OpGetLocalPtr then execGetLocalPtr
+  else if op == OpGetFreePtr then execGetFreePtr
+  else if op == OpDefineLocal then execDefineLocal
+  else if op == OpNull then execNull
+  else if op == OpPop then execPop
+  else if op == OpIterInit then execIterInit
+  else if op == OpIterNext || op == OpIterKey || op == OpIterValue then execIterNext op
+  else if op == OpLoadModule then execLoadModule
+  else if op == OpStoreModule then execStoreModule
+  else if op == OpSetupTry then execSetupTry
+  else if op == OpSetupCatch then execSetupCatch
+  else if op == OpSetupFinally then execSetupFinally
+  else if op == OpThrow then execThrow
+  else if op == OpFinalizer then execFinalizer
+  else if op == OpUnary then execUnary F
+  else if op == OpNoOp then execNoOp
+  else execUnknown op
+
 def step (F : FloatOps) : M Ctl := do
   bumpIp 1
   let op ← instAt (← getIp)
   noteTrace op
-  if op == OpConstant then
-    let v ← constAt (← opnd2 1)
-    pushV v; bumpIp 2; return .next
-  else if op == OpGetLocal then
-    let idx ← opnd1 1
-    let f ← curFrame
-    let value ← stackGet (f.bp + idx)
-    let value ← (match value with
-      | .box a => do match (← heapGet a) with | .box v => pure v | _ => panic "model: bad box"
-      | v => pure v)
-    pushV value; bumpIp 1; return .next
-  else if op == OpSetLocal then
-    let idx ← opnd1 1
-    let sp ← getSp
-    let value ← stackGet (sp - 1)
-    let f ← curFrame
-    let index := f.bp + idx
-    match (← stackGet index) with
-    | .box a => heapSet a (.box value)
-    | _ => stackSet index value
-    setSp (sp - 1); stackSet (sp - 1) .nil; bumpIp 1; return .next
-  else if op == OpBinaryOp then
-    let tok := tokOfNat (← opnd1 1)
-    let sp ← getSp
-    let left ← stackGet (sp - 2)
-    let right ← stackGet (sp - 1)
-    match (← vBinaryOp F tok left right) with
-    | .ok v =>
-      stackSet (sp - 2) v; setSp (sp - 1); stackSet (sp - 1) .nil; bumpIp 1; return .next
-    | .error e => failWith e
-  else if op == OpAndJump then
-    let sp ← getSp
-    if (← isFalsy (← stackGet (sp - 1))) then
-      setIp ((← jumpTarget) - 1); return .next
-    stackSet (sp - 1) .nil; setSp (sp - 1); bumpIp 4; return .next
-  else if op == OpOrJump then
-    let sp ← getSp
-    if (← isFalsy (← stackGet (sp - 1))) then
-      stackSet (sp - 1) .nil; setSp (sp - 1); bumpIp 4; return .next
-    setIp ((← jumpTarget) - 1); return .next
-  else if op == OpEqual || op == OpNotEqual then
-    let sp ← getSp
-    let left ← stackGet (sp - 2)
-    let right ← stackGet (sp - 1)
-    let eq ← vEqual F left right
-    stackSet (sp - 2) (.bool (if op == OpEqual then eq else !eq))
-    setSp (sp - 1); stackSet (sp - 1) .nil; return .next
-  else if op == OpTrue then
-    pushV (.bool true); return .next
-  else if op == OpFalse then
-    pushV (.bool false); return .next
-  else if op == OpCall then
-    let numArgs ← opnd1 1
-    let flags ← opnd1 2
-    let callee ← stackGet ((← getSp) - numArgs - 1)
-    match (← callAny callee numArgs flags) with
-    | .ok () => return .next
-    | .error e => failWith e
-  else if op == OpCallName then
-    let numArgs : Int := (← opnd1 1)
-    let flags : Int := (← opnd1 2)
-    let sp ← getSp
-    let obj ← stackGet (sp - numArgs - 2)
-    let name ← stackGet (sp - 1)
-    setSp (sp - 1); stackSet (sp - 1) .nil
-    -- none of the modelled objects is a NameCallerObject
-    match obj with
-    | .host _ => unsupported "CallName on a host object"
-    | _ => pure ()
-    match (← vIndexGet obj name) with
-    | .error e => failWith e
-    | .ok v =>
-      stackSet ((← getSp) - numArgs - 1) v
-      match (← callAny v numArgs flags) with
-      | .ok () => return .next
-      | .error e => failWith e
-  else if op == OpReturn then
-    let numRet ← opnd1 1
-    let f ← curFrame
-    let mut bp := f.bp
-    if bp == 0 then
-      match f.fn with
-      | none => panic "runtime error: invalid memory address or nil pointer dereference"
-      | some fa => bp := ((← fnCell fa).1.numLocals : Int) + 1
-    let sp ← getSp
-    if numRet == 1 && !f.discard then
-      stackSet (bp - 1) (← stackGet (sp - 1))
-    else
-      stackSet (bp - 1) .undefined
-    -- for i := vm.sp - 1; i >= bp; i-- { vm.stack[i] = nil }
-    clearDown (sp - 1) bp
-    setSp bp
-    let s ← getS
-    if s.frameIndex == 1 then return .ret
-    clearCurrentFrame
-    let pi := s.frameIndex - 2
-    if pi < 0 || pi ≥ (frameSize : Int) then
-      panic s!"runtime error: index out of range [{pi}] with length {frameSize}"
-    modS fun s => { s with frameIndex := s.frameIndex - 1, curFrame := pi.toNat }
-    let parent ← curFrame
-    setIp parent.ip
-    -- vm.curInsts = vm.curFrame.fn.Instructions
-    match parent.fn with
-    | none => panic "runtime error: invalid memory address or nil pointer dereference"
-    | some _ => return .next
-  else if op == OpGetBuiltin then
-    pushV (.builtin (← opnd1 1)); bumpIp 1; return .next
-  else if op == OpClosure then
-    let cidx ← opnd2 1
-    let fa ← (match (← constAt cidx) with
-      | .cfun a => pure a
-      | _ => panic "interface conversion: ugo.Object is not *ugo.CompiledFunction")
-    let numFree : Int := (← opnd1 3)
-    let sp ← getSp
-    let mut free : List Addr := []
-    for k in [0:numFree.toNat] do
-      let slot := sp - numFree + k
-      match (← stackGet slot) with
-      | .box a => free := free ++ [a]
-      | v => do let a ← alloc (.box v); free := free ++ [a]
-      stackSet slot .nil
-    setSp (sp - numFree)
-    let code ← (match (← heapGet fa) with | .fn c _ => pure c | _ => panic "model: bad fn")
-    let na ← alloc (.fn code (some free))
-    pushV (.cfun na); bumpIp 3; return .next
-  else if op == OpJump then
-    setIp ((← jumpTarget) - 1); return .next
-  else if op == OpJumpFalsy then
-    let sp ← getSp
-    setSp (sp - 1)
-    let obj ← stackGet (sp - 1)
-    stackSet (sp - 1) .nil
-    if (← isFalsy obj) then
-      setIp ((← jumpTarget) - 1); return .next
-    bumpIp 4; return .next
-  else if op == OpGetGlobal then
-    let index ← constAt (← opnd2 1)
-    match (← vIndexGet (← getS).globals index) with
-    | .error e => failWith e
-    | .ok v =>
-      pushV v; bumpIp 2
-      -- (Go: ip += 2 then sp++; pushV wrote at the old sp)
-      return .next
-  else if op == OpSetGlobal then
-    let index ← constAt (← opnd2 1)
-    let sp ← getSp
-    let value ← stackGet (sp - 1)
-    let value ← (match value with
-      | .box a => do match (← heapGet a) with | .box v => pure v | _ => panic "model: bad box"
-      | v => pure v)
-    match (← vIndexSet (← getS).globals index value) with
-    | .error e => failWith e
-    | .ok () =>
-      bumpIp 2; setSp (sp - 1); stackSet (sp - 1) .nil; return .next
-  else if op == OpArray then
-    let n : Int := (← opnd2 1)
-    let sp ← getSp
-    let xs ← stackSlice (sp - n) sp
-    let arr ← newArray xs
-    setSp (sp - n)
-    stackSet (sp - n) arr
-    -- for i := vm.sp + 1; i < vm.sp+numItems+1; i++ { vm.stack[i] = nil }
-    for k in [0:n.toNat] do
-      stackSet (sp - n + 1 + k) .nil
-    setSp (sp - n + 1); bumpIp 2; return .next
-  else if op == OpMap then
-    let n : Int := (← opnd2 1)
-    let sp ← getSp
-    let mut kvs : List (Bytes × V) := []
-    let mut i := sp - n
-    while i < sp do
-      let key ← stackGet i
-      let value ← stackGet (i + 1)
-      kvs := insertKV (← vString key) value kvs
-      stackSet i .nil
-      stackSet (i + 1) .nil
-      i := i + 2
-    let a ← alloc (.map kvs)
-    setSp (sp - n)
-    stackSet (sp - n) (.map a)
-    setSp (sp - n + 1); bumpIp 2; return .next
-  else if op == OpGetIndex then
-    let numSel0 : Int := (← opnd1 1)
-    let sp ← getSp
-    let tp := sp - 1 - numSel0
-    let mut target ← stackGet tp
-    let mut value := V.undefined
-    let mut numSel := numSel0
-    while numSel > 0 do
-      let ptr := sp - numSel
-      let index ← stackGet ptr
-      stackSet ptr .nil
-      match (← vIndexGet target index) with
-      | .error e =>
-        let e' ← (match e with
-          | .named "NotIndexableError" "" => pure (OpErr.named "NotIndexableError" (typeName target))
-          | .named "IndexOutOfBoundsError" "" => do pure (OpErr.named "IndexOutOfBoundsError" (String.fromUTF8! (ByteArray.mk (← vString index).toArray)))
-          | e => pure e)
-        return (← failWith e')
-      | .ok v => target := v; value := v
-      numSel := numSel - 1
-    stackSet tp value
-    setSp (tp + 1); bumpIp 1; return .next
-  else if op == OpSetIndex then
-    let sp ← getSp
-    let value ← stackGet (sp - 3)
-    let target ← stackGet (sp - 2)
-    let index ← stackGet (sp - 1)
-    match (← vIndexSet target index value) with
-    | .error e =>
-      let e' ← (match e with
-        | .named "NotIndexAssignableError" "" => pure (OpErr.named "NotIndexAssignableError" (typeName target))
-        | .named "IndexOutOfBoundsError" "" => do pure (OpErr.named "IndexOutOfBoundsError" (String.fromUTF8! (ByteArray.mk (← vString index).toArray)))
-        | e => pure e)
-      failWith e'
-    | .ok () =>
-      stackSet (sp - 3) .nil; stackSet (sp - 2) .nil; stackSet (sp - 1) .nil
-      setSp (sp - 3); return .next
-  else if op == OpSliceIndex then
-    let sp ← getSp
-    let obj ← stackGet (sp - 3)
-    let left ← stackGet (sp - 2)
-    let right ← stackGet (sp - 1)
-    stackSet (sp - 3) .nil; stackSet (sp - 2) .nil; stackSet (sp - 1) .nil
-    setSp (sp - 3)
-    let objlen? : Option Int := match obj with
-      | .arr _ _ l => some l
-      | .str s => some s.length
-      | .bytes s => some s.length
-      | _ => none
-    match obj with
-    | .nil => panic "runtime error: invalid memory address or nil pointer dereference"
-    | _ => pure ()
-    match objlen? with
-    | none => failWith (.named "TypeError" s!"{typeName obj} cannot be sliced")
-    | some objlen =>
-      let conv (v : V) (dflt : Int) : Option Int := match v with
-        | .undefined => some dflt
-        | .int x => some x.toInt
-        | .uint x => some (BitVec.toInt x)
-        | .char x => some x.toInt
-        | _ => none
-      match conv left 0 with
-      | none => failWith (.named "TypeError" s!"invalid first index type {typeName left}")
-      | some low =>
-      match conv right objlen with
-      | none => failWith (.named "TypeError" s!"invalid second index type {typeName right}")
-      | some high =>
-        if low > high then failWith (.named "InvalidIndexError" s!"[{low}:{high}]")
-        else
-          match obj with
-          | .bytes _ => unsupported "slice of bytes (capacity-dependent)"
-          | _ =>
-          if low < 0 || high < 0 || high > objlen then
-            failWith (.named "IndexOutOfBoundsError" s!"[{low}:{high}]")
-          else
-            let r : V := match obj with
-              | .arr a off _ => .arr a (off + low.toNat) (high - low).toNat
-              | .str s => .str ((s.drop low.toNat).take (high - low).toNat)
-              | v => v
-            let sp ← getSp
-            stackSet sp r; setSp (sp + 1); return .next
-  else if op == OpGetFree then
-    let idx ← opnd1 1
-    let f ← curFrame
-    match f.free with
-    | none => panic s!"runtime error: index out of range [{idx}] with length 0"
-    | some fr =>
-      match fr[idx]? with
-      | none => panic s!"runtime error: index out of range [{idx}] with length {fr.length}"
-      | some a =>
-        match (← heapGet a) with
-        | .box v => pushV v; bumpIp 1; return .next
-        | _ => panic "model: bad box"
-  else if op == OpSetFree then
-    let idx ← opnd1 1
-    let f ← curFrame
-    let sp ← getSp
-    match f.free with
-    | none => panic s!"runtime error: index out of range [{idx}] with length 0"
-    | some fr =>
-      match fr[idx]? with
-      | none => panic s!"runtime error: index out of range [{idx}] with length {fr.length}"
-      | some a =>
-        heapSet a (.box (← stackGet (sp - 1)))
-        setSp (sp - 1); stackSet (sp - 1) .nil; bumpIp 1; return .next
-  else if op == OpGetLocalPtr then
-    let idx ← opnd1 1
-    let f ← curFrame
-    let value ← stackGet (f.bp + idx)
-    let fv ← (match value with
-      | .box a => pure (V.box a)
-      | v => do
-        let a ← alloc (.box v)
-        stackSet (f.bp + idx) (.box a)
-        pure (V.box a))
-    pushV fv; bumpIp 1; return .next
-  else if op == OpGetFreePtr then
-    let idx ← opnd1 1
-    let f ← curFrame
-    match f.free with
-    | none => panic s!"runtime error: index out of range [{idx}] with length 0"
-    | some fr =>
-      match fr[idx]? with
-      | none => panic s!"runtime error: index out of range [{idx}] with length {fr.length}"
-      | some a => pushV (.box a); bumpIp 1; return .next
-  else if op == OpDefineLocal then
-    let idx ← opnd1 1
-    let f ← curFrame
-    let sp ← getSp
-    stackSet (f.bp + idx) (← stackGet (sp - 1))
-    setSp (sp - 1); stackSet (sp - 1) .nil; bumpIp 1; return .next
-  else if op == OpNull then
-    pushV .undefined; return .next
-  else if op == OpPop then
-    let sp ← getSp
-    setSp (sp - 1); stackSet (sp - 1) .nil; return .next
-  else if op == OpIterInit then
-    let sp ← getSp
-    let dst ← stackGet (sp - 1)
-    let k? : Option IterK ← (match dst with
-      | .arr a o l => pure (some (IterK.arr a o l))
-      | .str s => pure (some (IterK.str s 0 0#32))
-      | .bytes s => pure (some (IterK.bytes s))
-      | .map a => do
-        let kvs ← mapEntries a
-        -- Go collects the keys in map iteration order: only maps with ≤ 1 key are deterministic
-        if kvs.length > 1 then unsupported "for-in over a map with several keys (iteration order)"
-        else pure (some (IterK.map a (kvs.map Prod.fst)))
-      | .nil => panic "runtime error: invalid memory address or nil pointer dereference"
-      | .host _ | .box _ => unsupported "iterate host"
-      | _ => pure none)
-    match k? with
-    | some k =>
-      let a ← alloc (.iter k 0)
-      stackSet (sp - 1) (.iter a); return .next
-    | none => failWith (.named "NotIterableError" (typeName dst))
-  else if op == OpIterNext || op == OpIterKey || op == OpIterValue then
-    let sp ← getSp
-    let it ← stackGet (sp - 1)
-    match it with
-    | .iter a =>
-      match (← heapGet a) with
-      | .iter k i =>
-        if op == OpIterNext then
-          match k with
-          | .arr _ _ l =>
-            heapSet a (.iter k (i + 1)); stackSet (sp - 1) (.bool (decide (i < (l : Int)))); return .next
-          | .bytes s =>
-            heapSet a (.iter k (i + 1)); stackSet (sp - 1) (.bool (decide (i < (s.length : Int)))); return .next
-          | .map _ keys =>
-            heapSet a (.iter k (i + 1)); stackSet (sp - 1) (.bool (decide (i < (keys.length : Int)))); return .next
-          | .str _ _ _ => unsupported "string iteration (utf8 decoding)"
-        else if op == OpIterKey then
-          match k with
-          | .arr .. | .bytes _ => stackSet (sp - 1) (.int (BitVec.ofInt 64 (i - 1))); return .next
-          | .map _ keys =>
-            match (if i - 1 < 0 then none else keys[(i - 1).toNat]?) with
-            | some key => stackSet (sp - 1) (.str key); return .next
-            | none => panic s!"runtime error: index out of range [{i - 1}] with length {keys.length}"
-          | .str .. => unsupported "string iteration"
-        else
-          match k with
-          | .arr aa o l =>
-            let j := i - 1
-            if j > -1 && j < l then
-              let xs ← arrElems aa o l
-              stackSet (sp - 1) (xs[j.toNat]!); return .next
-            else stackSet (sp - 1) .undefined; return .next
-          | .bytes s =>
-            let j := i - 1
-            if j > -1 && j < s.length then
-              stackSet (sp - 1) (.int (BitVec.ofNat 64 (s[j.toNat]!).toNat)); return .next
-            else stackSet (sp - 1) .undefined; return .next
-          | .map ma keys =>
-            match (if i - 1 < 0 then none else keys[(i - 1).toNat]?) with
-            | some key =>
-              match lookupKV key (← mapEntries ma) with
-              | some v => stackSet (sp - 1) v; return .next
-              | none => stackSet (sp - 1) .undefined; return .next
-            | none => panic s!"runtime error: index out of range [{i - 1}] with length {keys.length}"
-          | .str .. => unsupported "string iteration"
-      | _ => panic "model: bad iterator cell"
-    | .nil => panic "interface conversion: interface is nil, not ugo.Iterator"
-    | _ => panic "interface conversion: ugo.Object is not ugo.Iterator"
-  else if op == OpLoadModule then
-    let cidx ← opnd2 1
-    let midx ← opnd2 3
-    let s ← getS
-    match s.modules[midx]? with
-    | none => panic s!"runtime error: index out of range [{midx}] with length {s.modules.size}"
-    | some .nil =>
-      pushV (← constAt cidx); pushV (.bool true); bumpIp 4; return .next
-    | some v =>
-      pushV v; pushV (.bool false); bumpIp 4; return .next
-  else if op == OpStoreModule then
-    let midx ← opnd2 1
-    let sp ← getSp
-    let value ← stackGet (sp - 1)
-    -- Copier: Array, Map, Bytes, Function, Error, … ; module values in the model are maps/arrays/scalars
-    let value ← (match value with
-      | .map _ | .arr .. => unsupported "STOREMODULE deep copy of a container"
-      | .nil => panic "runtime error: invalid memory address or nil pointer dereference"
-      | v => pure v)
-    let s ← getS
-    if midx ≥ s.modules.size then
-      panic s!"runtime error: index out of range [{midx}] with length {s.modules.size}"
-    modS fun s => { s with modules := s.modules.set! midx value }
-    bumpIp 2; return .next
-  else if op == OpSetupTry then
-    let catch_ ← opnd4 1
-    let finally_ ← opnd4 5
-    let sp ← getSp
-    let h : Handler := { sp := sp, catch_ := catch_, finally_ := finally_, returnTo := 0, err := none }
-    setCurFrame fun f => { f with handlers := some (h :: (f.handlers.getD [])) }
-    bumpIp 8; return .next
-  else if op == OpSetupCatch then
-    let f ← curFrame
-    let mut value := V.undefined
-    if hasHandler f then
-      setCurFrame fun f => setLast f fun h => { h with catch_ := 0 }
-      match lastHandler f with
-      | some h =>
-        match h.err with
-        | some e =>
-          value := .rterr e
-          setCurFrame fun f => setLast f fun h => { h with err := none }
-        | none => pure ()
-      | none => pure ()
-    pushV value; return .next
-  else if op == OpSetupFinally then
-    let f ← curFrame
-    if hasHandler f then
-      setCurFrame fun f => setLast f fun h => { h with catch_ := 0, finally_ := 0 }
-    return .next
-  else if op == OpThrow then
-    let o ← opnd1 1
-    bumpIp 1
-    if o == 0 then
-      let f ← curFrame
-      match lastHandler f with
-      | some h =>
-        match h.err with
-        | some e =>
-          -- errHandlers.hasError(): re-throw after finally
-          setCurFrame popHandler
-          match (← throwF (← throwFuel) e) with
-          | none => return .next
-          | some a => modS (fun s => { s with err := some (.rt a) }); return .ret
-        | none =>
-          if h.returnTo > 0 then
-            setCurFrame popHandler
-            let sp ← getSp
-            if sp ≥ h.sp then clearDown sp h.sp
-            setSp h.sp
-            setIp (h.returnTo - 1)
-            return .next
-          else
-            -- try statement completed normally, its handler is not needed anymore
-            setCurFrame popHandler
-            return .next
-      | none => return .next
-    else if o == 1 then
-      let sp ← getSp
-      let obj ← stackGet (sp - 1)
-      stackSet (sp - 1) .nil
-      setSp (sp - 1)
-      let ra ← (match obj with
-        | .rterr a => pure a
-        | .err a => alloc (.rterr (some a))
-        | .nil => panic "runtime error: invalid memory address or nil pointer dereference"
-        | v => do
-          let msg ← vString v
-          let ea ← alloc (.err [] msg none)
-          alloc (.rterr (some ea)))
-      match (← throwF (← throwFuel) ra) with
-      | none => return .next
-      | some a => modS (fun s => { s with err := some (.rt a) }); return .ret
-    else
-      modS (fun s => { s with err := some (.goerr s!"wrong operand for OpThrow:{o}") }); return .ret
-  else if op == OpFinalizer then
-    let upto ← opnd1 1
-    let nh := (match (← curFrame).handlers with | some hs => hs.length | none => 0)
-    let pos ← findFinally (nh + 2) upto
-    if pos ≤ 0 then
-      bumpIp 1; return .next
-    let ip ← getIp
-    let sp ← getSp
-    setCurFrame fun f => setLast f fun h => { h with returnTo := ip, sp := sp, err := none }
-    setIp (pos - 1); return .next
-  else if op == OpUnary then
-    let tok := tokOfNat (← opnd1 1)
-    let sp ← getSp
-    let right ← stackGet (sp - 1)
-    match right with
-    | .nil => panic "runtime error: invalid memory address or nil pointer dereference"
-    | _ => pure ()
-    if tok == .Not then
-      stackSet (sp - 1) (.bool (← isFalsy right)); bumpIp 1; return .next
-    let bad : M Ctl := failWith (.named "TypeError" s!"invalid type for unary '{tok.str}': '{typeName right}'")
-    let r? : Option (Option V) := match tok, right with
-      | .Sub, .int x => some (some (.int (-x)))
-      | .Sub, .float x => some (some (.float (F.neg x)))
-      | .Sub, .char x => some (some (.int (BitVec.signExtend 64 (-x))))
-      | .Sub, .uint x => some (some (.uint (-x)))
-      | .Sub, .bool b => some (some (.int (if b then (-1#64) else 0#64)))
-      | .Sub, _ => some none
-      | .Xor, .int x => some (some (.int (~~~x)))
-      | .Xor, .uint x => some (some (.uint (~~~x)))
-      | .Xor, .char x => some (some (.int (~~~(BitVec.signExtend 64 x))))
-      | .Xor, .bool b => some (some (.int (if b then ~~~(1#64) else ~~~(0#64))))
-      | .Xor, _ => some none
-      | .Add, .int x => some (some (.int x))
-      | .Add, .uint x => some (some (.uint x))
-      | .Add, .float x => some (some (.float x))
-      | .Add, .char x => some (some (.char x))
-      | .Add, .bool b => some (some (.int (if b then 1#64 else 0#64)))
-      | .Add, _ => some none
-      | _, _ => none
-    match r? with
-    | none => failWith (.named "InvalidOperatorError" s!"invalid for '{tok.str}': '{typeName right}'")
-    | some none => bad
-    | some (some v) => stackSet (sp - 1) v; bumpIp 1; return .next
-  else if op == OpNoOp then
-    return .next
-  else
-    modS (fun s => { s with err := some (.goerr s!"unknown opcode {op}") }); return .ret
+  dispatch F op
 
 end UgoVerif.VM
